@@ -307,6 +307,9 @@ func (c *Collector) Direct(t *testing.T, body func()) {
 // prints KNOWN-FINDING for those that still fail with the recorded signature. Fixed findings'
 // repros must pass.
 func (c *Collector) ReplayKnown(t *testing.T, eval func(repro json.RawMessage) []Violation) {
+	if si, _ := Shard(); si != 0 {
+		return // the replay tier runs once per check, in shard 0
+	}
 	for _, f := range Findings() {
 		if f.Property != c.ID || len(f.Repro) == 0 {
 			continue
